@@ -13,6 +13,7 @@ package main
 //     A<k>:<sid>:<answer>@<t>                    proxy answer at absolute time t
 //     A<k>:<sid>:<answer>@P<j>+<dt>              proxy answer dt ms after poll j returned (only if it got an offer)
 //     L<k>:<dur>@<t>                             hold ctx.snowflakeLock for dur ms from t
+//     I<k>:<fp>=<url>;<fp>=<url>@<t>             InstallBridgeListProfile at t (replaces the whole list; "-" = empty list)
 //     W<k>:<ms>@0                                watchdog: total observation time of the scenario
 // Output: space separated  P<k>=..  C<k>=..  A<k>=..  avail=<len(idToSnowflake)> heapU=<n> heapR=<n> gauge=<sum> freshR=.. freshU=..
 
@@ -201,22 +202,34 @@ func vbDoAnswer(i *IPC, sid, answer string) string {
 	return "fail"
 }
 
+func vbInstall(ctx *BrokerContext, list string, sep string) (string, error) {
+	first := "-"
+	var sb strings.Builder
+	if list != "-" {
+		for n, b := range strings.Split(list, sep) {
+			kv := strings.SplitN(b, "=", 2)
+			if n == 0 {
+				first = kv[0]
+			}
+			fmt.Fprintf(&sb, "{\"displayName\":\"b\", \"webSocketAddress\":%q, \"fingerprint\":%q}\n", kv[1], kv[0])
+		}
+	}
+	return first, ctx.InstallBridgeListProfile(strings.NewReader(sb.String()), "", "")
+}
+
 func vbRunScenario(args []string) string {
 	if len(args) < 3 || args[0] != "scen" {
 		return "!badcase"
 	}
 	ctx := NewBrokerContext(log.New(io.Discard, "", 0))
 	freshFp := "-" // the fresh clients at the end name a bridge that is in the installed list
+	var freshMu sync.Mutex
 	if args[1] != "-" {
-		freshFp = strings.SplitN(strings.Split(args[1], ",")[0], "=", 2)[0]
-		var sb strings.Builder
-		for _, b := range strings.Split(args[1], ",") {
-			kv := strings.SplitN(b, "=", 2)
-			fmt.Fprintf(&sb, "{\"displayName\":\"b\", \"webSocketAddress\":%q, \"fingerprint\":%q}\n", kv[1], kv[0])
-		}
-		if err := ctx.InstallBridgeListProfile(strings.NewReader(sb.String()), "", ""); err != nil {
+		fp, err := vbInstall(ctx, args[1], ",")
+		if err != nil {
 			return "!bridges:" + err.Error()
 		}
+		freshFp = fp
 	}
 	go ctx.Broker()
 	i := &IPC{ctx}
@@ -354,6 +367,16 @@ func vbRunScenario(args []string) string {
 				set(key, vbDoClient(i, e.f[0], e.f[1], e.f[2], e.f[3]))
 			case 'A':
 				set(key, vbDoAnswer(i, e.f[0], e.f[1]))
+			case 'I':
+				fp, err := vbInstall(ctx, strings.Join(e.f, ":"), ";")
+				if err != nil {
+					set(key, "err:"+strings.ReplaceAll(err.Error(), " ", "_"))
+				} else {
+					freshMu.Lock()
+					freshFp = fp
+					freshMu.Unlock()
+					set(key, "installed")
+				}
 			case 'L':
 				d, _ := strconv.Atoi(e.f[0])
 				ctx.snowflakeLock.Lock()
@@ -386,7 +409,10 @@ func vbRunScenario(args []string) string {
 	}
 	fresh := func(nat string) string {
 		ch := make(chan string, 1)
-		go func() { ch <- vbDoClient(i, nat, freshFp, "{fresh}", "v") }()
+		freshMu.Lock()
+		ffp := freshFp
+		freshMu.Unlock()
+		go func() { ch <- vbDoClient(i, nat, ffp, "{fresh}", "v") }()
 		select {
 		case r := <-ch:
 			return r
@@ -413,6 +439,73 @@ func vbRunScenario(args []string) string {
 	return strings.Join(out, " ")
 }
 
+// "broker heap <ops>": scripted operations on a real SnowflakeHeap through container/heap, guarded as the broker
+// guards them (Pop: Len() > 0; Remove/Fix: a valid index).
+//   ops: comma list of  u:<id>:<clients>:<proxyType>  heap.Push of a new Snowflake
+//                       o                            heap.Pop
+//                       r:<i>                        heap.Remove(h, i)
+//                       f:<i>:<clients>              (*h)[i].clients = clients; heap.Fix(h, i)
+// Output, one segment per op:  <id handed back|->/<slice: id:clients:index . ...>/<left the heap: id:index . ...>
+func vbRunHeap(ops string) string {
+	h := new(SnowflakeHeap)
+	heap.Init(h)
+	var left []*Snowflake
+	var segs []string
+	if ops == "-" {
+		return ""
+	}
+	for _, op := range strings.Split(ops, ",") {
+		f := strings.Split(op, ":")
+		ret := "-"
+		switch f[0] {
+		case "u":
+			s := new(Snowflake)
+			s.id = f[1]
+			s.clients, _ = strconv.Atoi(f[2])
+			s.proxyType = f[3]
+			s.natType = NATUnrestricted
+			heap.Push(h, s)
+		case "o":
+			if h.Len() > 0 {
+				s := heap.Pop(h).(*Snowflake)
+				ret = s.id
+				left = append(left, s)
+			}
+		case "r":
+			i, _ := strconv.Atoi(f[1])
+			if i < h.Len() {
+				s := heap.Remove(h, i).(*Snowflake)
+				ret = s.id
+				left = append(left, s)
+			}
+		case "f":
+			i, _ := strconv.Atoi(f[1])
+			if i < h.Len() {
+				(*h)[i].clients, _ = strconv.Atoi(f[2])
+				heap.Fix(h, i)
+			}
+		default:
+			return "!badcase"
+		}
+		var arr, out []string
+		for _, s := range *h {
+			arr = append(arr, fmt.Sprintf("%s:%d:%d", s.id, s.clients, s.index))
+		}
+		for _, s := range left {
+			out = append(out, fmt.Sprintf("%s:%d", s.id, s.index))
+		}
+		a, o := "-", "-"
+		if len(arr) > 0 {
+			a = strings.Join(arr, ".")
+		}
+		if len(out) > 0 {
+			o = strings.Join(out, ".")
+		}
+		segs = append(segs, ret+"/"+a+"/"+o)
+	}
+	return strings.Join(segs, " ")
+}
+
 func TestVerifBrokerDriver(t *testing.T) {
 	if os.Getenv("VERIF_DRIVER") != "broker" {
 		t.Skip("driver mode off")
@@ -435,6 +528,10 @@ func TestVerifBrokerDriver(t *testing.T) {
 			defer wg.Done()
 			defer func() { <-sem }()
 			args := strings.Split(line, " ")
+			if len(args) == 3 && args[1] == "heap" {
+				res[idx] = vbRunHeap(args[2])
+				return
+			}
 			res[idx] = vbRunScenario(args[1:])
 		}()
 	}
